@@ -44,6 +44,7 @@ def enter_order(ctx: Ctx, chk) -> None:
     f = gw.find_method("__aenter__")
     if f is None:
         raise AnalysisError("anchor vanished: Gateway.__aenter__")
+    f = ctx.inl(f)
     g = CFG(f.node)
     loads = _calls(g, lambda c: norm(c.func) == "self.persistence.load")
     starts = _calls(g, lambda c: norm(c.func) == "self.persistence.start")
@@ -72,7 +73,10 @@ def enter_order(ctx: Ctx, chk) -> None:
     key = f"{f.fq}::persistence-steps"
     ok = True
     for n in loads + starts:
-        tests = [t for t in g.nodes if t.kind == "test" and g.dominates(t, n)]
+        from .sleepbuf import branch_polarity
+
+        # tests the step really depends on (one branch of the test cannot reach it), not merely earlier tests
+        tests = [t for t in g.nodes if t.kind == "test" and g.dominates(t, n) and branch_polarity(g, t, [n]) is not None]
         if any(norm(t.ast) not in ("self.persistence", "self.persistence is not None") for t in tests):
             ok = False
     if ok:
@@ -125,7 +129,7 @@ def life2(ctx: Ctx, chk) -> None:
     rule = "LIFE-2"
     chk.rule(rule, "release on failed entry: after persistence.start() every statement of __aenter__ that can raise is covered by a handler/finally that stops the saver before the error propagates (no background task is left behind when connecting fails)")
     gw = ctx.cls(GW)
-    f = gw.find_method("__aenter__")
+    f = ctx.inl(gw.find_method("__aenter__"))
     g = CFG(f.node)
     starts = _calls(g, lambda c: norm(c.func) == "self.persistence.start")
     stops = _calls(g, lambda c: norm(c.func) in ("self.persistence.stop",) or norm(c.func).endswith("._cancel_save"))
@@ -168,6 +172,7 @@ def life3(ctx: Ctx, chk) -> None:
     f = gw.find_method("__aexit__")
     if f is None:
         raise AnalysisError("anchor vanished: Gateway.__aexit__")
+    f = ctx.inl(f)
     g = CFG(f.node)
     disc = _calls(g, lambda c: norm(c.func) == "self.transport.disconnect")
     stops = _calls(g, lambda c: norm(c.func) == "self.persistence.stop")
@@ -219,12 +224,25 @@ def stop1(ctx: Ctx, chk) -> None:
         chk.ok(rule, key, "every normal path ends through await self.save()", ctx.loc(stop, saves[0].ast))
     else:
         chk.refute(rule, key, "a normal path through Persistence.stop skips the final save (or it is not awaited)", stop.where)
-    cancels = _calls(g, lambda c: norm(c.func) == "self._cancel_save")
+    from ..prov import Canon
+
+    cn = Canon(ctx.I, stop, "")
+
+    def is_cancel(c: ast.Call) -> bool:
+        # `self._cancel_save()` or a local bound to it (`if cancel := self._cancel_save: await cancel()`)
+        return cn.canon(c.func) == "self._cancel_save"
+
+    def unwalrus(e):
+        return e.value if isinstance(e, ast.NamedExpr) else e
+
+    cancels = _calls(g, is_cancel)
     chk.instance(rule)
     key = f"{stop.fq}::cancel"
-    if cancels and all(_awaited(ctx, c, "self._cancel_save") for c in cancels):
-        tests = [t for c in cancels for t in g.nodes if t.kind == "test" and g.dominates(t, c)]
-        if all(norm(t.ast) in ("self._cancel_save", "self._cancel_save is not None") for t in tests):
+    if cancels and all(any(isinstance(x, ast.Await) and isinstance(x.value, ast.Call) and is_cancel(x.value) for p_ in c.parts() for x in ast.walk(p_)) for c in cancels):
+        from .sleepbuf import branch_polarity
+
+        tests = [t for c in cancels for t in g.nodes if t.kind == "test" and g.dominates(t, c) and branch_polarity(g, t, [c]) is not None]
+        if all(cn.canon(unwalrus(t.ast)) in ("self._cancel_save", "self._cancel_save is not None") for t in tests):
             chk.ok(rule, key, "awaits self._cancel_save() whenever a saver was started", ctx.loc(stop, cancels[0].ast))
         else:
             chk.refute(rule, key, "cancelling the saver depends on more than `a saver was started`", ctx.loc(stop, cancels[0].ast))
